@@ -28,6 +28,20 @@ def helper_truth(paths, sc):
     return out
 
 
+def push_context_rule(ctx, w, rule):
+    """From<RoomPowerLevels> for PushConditionPowerLevelsCtx is a field-by-field copy (shared with C12: sender_notification_permission is evaluated in it)."""
+    # ---- the context the push condition is evaluated in carries the same levels -----------------------------------------------------------
+    fcx = [w.fn(k) for k in w.fn_index if k.endswith("for ruma_common::push::condition::PushConditionPowerLevelsCtx>::from") and "RoomPowerLevels>" in k]
+    if not fcx:
+        ctx.missing(rule, f"{rule}:push-context", "From<RoomPowerLevels> for PushConditionPowerLevelsCtx not found")
+    else:
+        rets = {D.show(p.ret) for p in D.Dex(w.lookup, adt_discr=w.adt_discr, ctors=w.ctors).paths(fcx[0], [D.sym("c")]) if p.kind == "ret"}
+        want_ctx = "PushConditionPowerLevelsCtx::PushConditionPowerLevelsCtx(users=c.users, users_default=c.users_default, notifications=c.notifications)"
+        ctx.check(rets == {want_ctx}, rule, f"{rule}:push-context", w.where(fcx[0]),
+                  bad_msg=f"the push-condition context is not a field-by-field copy of the power levels ({[r[:140] for r in rets][:1]}): the sender_notification_permission "
+                          f"condition then sees other levels than user_can_trigger_room_notification")
+
+
 def run(ctx):
     fx = ctx.facts("A")
     w = W.World(fx, ["ruma_events", "ruma_common", "ruma_state_res"])
@@ -186,16 +200,7 @@ def run(ctx):
                   bad_msg=f"{name} does not hand each action to the helper of that action: {bad_d} (the generic entry point then disagrees with the authorization "
                           f"rules although the named helper agrees)")
 
-    # ---- the context the push condition is evaluated in carries the same levels -----------------------------------------------------------
-    fcx = [w.fn(k) for k in w.fn_index if k.endswith("for ruma_common::push::condition::PushConditionPowerLevelsCtx>::from") and "RoomPowerLevels>" in k]
-    if not fcx:
-        ctx.missing("C20.helpers", "C20.helpers:push-context", "From<RoomPowerLevels> for PushConditionPowerLevelsCtx not found")
-    else:
-        rets = {D.show(p.ret) for p in dex.paths(fcx[0], [D.sym("c")]) if p.kind == "ret"}
-        want_ctx = "PushConditionPowerLevelsCtx::PushConditionPowerLevelsCtx(users=c.users, users_default=c.users_default, notifications=c.notifications)"
-        ctx.check(rets == {want_ctx}, "C20.helpers", "C20.helpers:push-context", w.where(fcx[0]),
-                  bad_msg=f"the push-condition context is not a field-by-field copy of the power levels ({[r[:140] for r in rets][:1]}): the sender_notification_permission "
-                          f"condition then sees other levels than user_can_trigger_room_notification")
+    push_context_rule(ctx, w, "C20.helpers")
     # ---- defaults and conversion --------------------------------------------------------------------------------
     rule3 = "C20.defaults"
     ctx.rule(rule3, "RoomPowerLevelsEventContent::new() and the serde default functions use the specification's defaults; "
@@ -219,6 +224,23 @@ def run(ctx):
     ps = dex.paths(f, [D.sym("c")])
     good = len(ps) == 1 and ps[0].ret is not None and ps[0].ret[0] == "adt" and all(D.show(v) == f"c.{k}" for k, v in ps[0].ret[3]) and len(ps[0].ret[3]) == 10
     ctx.check(good, rule3, f"{rule3}:from-content", w.where(f), bad_msg=f"{[D.show(p.ret)[:300] for p in ps]}")
+    # the redacted content (room version 11 keeps every level, `invite` included) converts field by field too; only `notifications`, which no
+    # redaction keeps, takes its default
+    f = w.fn(f"<{P}RoomPowerLevels as core::convert::From<{P}RedactedRoomPowerLevelsEventContent>>::from")
+    ps = dex.paths(f, [D.sym("c")])
+    good = len(ps) == 1 and ps[0].ret is not None and ps[0].ret[0] == "adt" and len(ps[0].ret[3]) == 10
+    wrong = {}
+    if good:
+        for k, v in ps[0].ret[3]:
+            sv = D.show(v)
+            if k == "notifications":
+                if not re.search(r"(Default::default\(\)|NotificationPowerLevels::(new|default)\(\))", sv):
+                    wrong[k] = sv[:80]
+            elif sv != f"c.{k}":
+                wrong[k] = sv[:80]
+    ctx.check(good and not wrong, rule3, f"{rule3}:from-redacted-content", w.where(f),
+              bad_msg=f"RoomPowerLevels::from(RedactedRoomPowerLevelsEventContent) is not a field-by-field copy: {wrong or [D.show(p.ret)[:200] for p in ps]} - the helpers then "
+                      f"judge a redacted power-levels event (v11 keeps `invite`) by other levels than the authorization rules")
     f = w.fn("ruma_common::power_levels::NotificationPowerLevels::new")
     ps = dex.paths(f, [])
     good = len(ps) == 1 and ps[0].ret is not None and ps[0].ret[0] == "adt" and D.show(dict(ps[0].ret[3])["room"]) == "power_levels::default_power_level()"
